@@ -44,6 +44,7 @@ type Channel interface {
 
 func initChannel() {
 	ChannelClass = NewClassWithOptions(ClassWithConstructor(UndefinedConstructor))
+	ChannelClass.IncludeMixin(IterableFiniteBaseMixin)
 	StdModule.AddConstantString("Channel", Ref(ChannelClass))
 	RegisterNativeClass("Std::Channel", "value.ChannelClass")
 
